@@ -7,7 +7,7 @@ from datetime import datetime, timedelta
 from typing import Any, Dict, List, Optional, Tuple
 
 from . import core
-from .gen import to_dt, to_ts
+from .gen import tf_arg, to_dt, to_ts
 
 core.setup_import_path()
 
@@ -53,7 +53,7 @@ def snap_list(cs: List[Candle]) -> List[Dict[str, Any]]:
 def manager(cfg: Dict, rows: List[Dict]) -> CandleManager:
     return CandleManager(mk_candles(rows),
                          candles_lifespan=timedelta(seconds=cfg["lifespan"]) if cfg.get("lifespan") is not None else None,
-                         timeframe=cfg.get("tf"), timeframe_fill=bool(cfg.get("fill")),
+                         timeframe=tf_arg(cfg.get("tf"), len(rows)), timeframe_fill=bool(cfg.get("fill")),
                          candlestick_type=HeikinAshi() if cfg.get("ha") else None)
 
 
